@@ -55,7 +55,8 @@ PROPS = {
                 "split/merged command lines, leading/trailing whitespace in a command or source, renamed target, added source, two targets merged) "
                 "or an independent rule; strings contain ':' and spaces; plus rules outside the parser's range (empty string, embedded newline). "
                 "Each rule's identity is compared with the model's SHA-256 of the canonical serialisation; the monitor compares identities pairwise "
-                "with the property's own notion of 'same rule'. Distinct by hash of the rule; every case is non-trivial (a full rule).",
+                "with the property's own notion of 'same rule'. Distinct by hash of the rule; every case is non-trivial (a full rule)."
+                + " Round 2: suite c13_shared — 60 quick / 600 thorough builds of one multi-target rule written in two of three equivalent notations (flat target lines in two orders, tab-indented directory bundle; names chosen so that bundle order and bytewise order differ), then targets taken away (clean or deletion) and rebuilt: nothing may run after the notation change, every target must come back with its own content.",
         "trusted_base": COMMON_TB + ["SHA-256 collision freedom is idealised: the theorems are about the hashed preimage"],
         "assumptions": [
             "theorems are about coq/Model/RuleSyntax.v + TicketModel.v (ser_rule, canon_rule) and the parser model; tied to Rule::get_ticket / Ticket::from_strings by suite c13_identity, and end-to-end (history file names) by the history suites of C01",
@@ -86,7 +87,8 @@ PROPS = {
                 "deleted targets, deleted cache entries, deleted ruler directory and parts of it), deterministic and failing commands, serial schedule; "
                 "plus every crash point (every file-system mutation incl. torn writes) of builds and cleans from five kinds of prior state. After every "
                 "operation and at every crash point every cache file name is recomputed from its bytes (harness's own SHA-256 + base-62) and the cache "
-                "listing (names and contents) is compared with the model. Distinct by hash of the history; non-trivial = contains a successful build.",
+                "listing (names and contents) is compared with the model. Distinct by hash of the history; non-trivial = contains a successful build."
+                + " Round 2: suite swap — 200 quick / 3000 thorough histories that exchange and restore the values of two leaves feeding a two-target rule (or two rules), with a rule toggled between failing and fixed and cleans, three quarters under the coarse clock; the cache-naming monitor runs under both clocks.",
         "trusted_base": COMMON_TB + [
             "the LTS step relation (coq/Model/Inv.v) is the vocabulary of actions on shared state; that ruler's threads perform only such actions is shown for the sequential model (build/clean are step sequences, proved) and sampled for the implementation",
             "directories and path resolution are not modelled (flat path map)",
@@ -102,7 +104,8 @@ PROPS = {
         "columns": ["files", "cache"],
         "rule": "same histories and crash points as C07; monitor: the set of contents at ever-declared target paths and in the cache before each build/clean "
                 "is a subset of the set afterwards (and at every crash point outside a command), and no rename by ruler goes over a target or cache "
-                "file with different content; workspace and cache listings compared with the model. Non-trivial = contains a successful build.",
+                "file with different content; workspace and cache listings compared with the model. Non-trivial = contains a successful build."
+                + " Round 2: suite mixed — one rule with 2-3 targets each reading its own subset of three leaves; single leaves edited and put back, single targets deleted or tampered, cleans: one build finds targets in different states.",
         "trusted_base": COMMON_TB + ["hash collision freedom idealised (free symbolic hashes / injectivity hypothesis)"],
         "assumptions": [
             "commands write their outputs atomically and deterministically, a failing command writes nothing (the property's own assumption); the theorem covers ruler's own actions at every instant, the whole-build form under deterministic commands is monitored, not proved",
@@ -139,7 +142,8 @@ PROPS = {
         "level": "proof",
         "suites": ["sched"],
         "columns": ["verdict"],
-        "rule": "one build or clean invocation explored under many thread schedules from the same disk state: serial, 20 (60) seeded-random, 10 (20) PCT-style, and bounded exhaustive depth-first enumeration of the choice tree for scenarios of <= 3 rules; scenarios: generated graphs plus wide fan-in, fan-out with byte-identical outputs, independent rules with equal outputs, chain+diamond, with failing rules and missing leaves; initial states fresh / built / built-cleaned / built-edited / built-cleaned-edited / built-tampered; yield points at spawn, send, recv, join, endpoint drop, task exit and every System call. Every schedule's event trace is replayed through the protocol model (trace validation) and the serial run is a history case for the build model. Distinct by hash of the case; all cases non-trivial." + " Monitor: the shim reports 'all tasks blocked', panics caught at task and call boundary, failed sends/receives, BuildError::{SenderError,ReceiverError,Weird}.",
+        "rule": "one build or clean invocation explored under many thread schedules from the same disk state: serial, 20 (60) seeded-random, 10 (20) PCT-style, and bounded exhaustive depth-first enumeration of the choice tree for scenarios of <= 3 rules; scenarios: generated graphs plus wide fan-in, fan-out with byte-identical outputs, independent rules with equal outputs, chain+diamond, with failing rules and missing leaves; initial states fresh / built / built-cleaned / built-edited / built-cleaned-edited / built-tampered; yield points at spawn, send, recv, join, endpoint drop, task exit and every System call. Every schedule's event trace is replayed through the protocol model (trace validation) and the serial run is a history case for the build model. Distinct by hash of the case; all cases non-trivial." + " Monitor: the shim reports 'all tasks blocked', panics caught at task and call boundary, failed sends/receives, BuildError::{SenderError,ReceiverError,Weird}."
+                + " Round 2: rule graphs ruler must REJECT (dependency cycles at any depth, between siblings, beside acyclic parts; seven fixed shapes and 40 quick / 400 thorough random ones) are run under the serial and random schedules with deadlock detection, and as correspondence cases (the model names the sort error); work-atomic schedules (policy Order) are compared in full with Model/Sched.v build_ord.",
         "trusted_base": COMMON_TB + ["the scheduler shim (real threads under a baton)", "std::thread / std::sync::mpsc semantics as re-implemented by the shim and as modelled by the protocol LTS"],
         "assumptions": [
             "PARTIAL: protocol-level theorems (no channel error, deadlock freedom, termination bound) for every accepted plan and every interleaving; OS-level hangs, commands that never exit, file-system faults and panics inside the work step are monitored, not proved",
@@ -150,7 +154,8 @@ PROPS = {
         "level": "proof",
         "suites": ["sched"],
         "columns": ["verdict", "files"],
-        "rule": "one build or clean invocation explored under many thread schedules from the same disk state: serial, 20 (60) seeded-random, 10 (20) PCT-style, and bounded exhaustive depth-first enumeration of the choice tree for scenarios of <= 3 rules; scenarios: generated graphs plus wide fan-in, fan-out with byte-identical outputs, independent rules with equal outputs, chain+diamond, with failing rules and missing leaves; initial states fresh / built / built-cleaned / built-edited / built-cleaned-edited / built-tampered; yield points at spawn, send, recv, join, endpoint drop, task exit and every System call. Every schedule's event trace is replayed through the protocol model (trace validation) and the serial run is a history case for the build model. Distinct by hash of the case; all cases non-trivial." + " Monitor: every schedule must give the serial schedule's verdict and workspace contents.",
+        "rule": "one build or clean invocation explored under many thread schedules from the same disk state: serial, 20 (60) seeded-random, 10 (20) PCT-style, and bounded exhaustive depth-first enumeration of the choice tree for scenarios of <= 3 rules; scenarios: generated graphs plus wide fan-in, fan-out with byte-identical outputs, independent rules with equal outputs, chain+diamond, with failing rules and missing leaves; initial states fresh / built / built-cleaned / built-edited / built-cleaned-edited / built-tampered; yield points at spawn, send, recv, join, endpoint drop, task exit and every System call. Every schedule's event trace is replayed through the protocol model (trace validation) and the serial run is a history case for the build model. Distinct by hash of the case; all cases non-trivial." + " Monitor: every schedule must give the serial schedule's verdict and workspace contents."
+                + " Round 2: per scenario 6 (12) runs under the work-atomic scheduler policy Order with random priorities; the complete observation of each (verdict, script lines in execution order, status lines, workspace, cache, histories, table) is compared with the model's build_ord run in the order the work steps took.",
         "trusted_base": COMMON_TB + ["the scheduler shim (real threads under a baton)", "std::thread / std::sync::mpsc semantics as re-implemented by the shim and as modelled by the protocol LTS"],
         "assumptions": [
             "PARTIAL: proved: every complete execution has exactly the same events and final protocol state (only the order differs); NOT proved: that the work steps of independent rules commute on the shared cache up to verdict and workspace — decided by schedule exploration on the implementation",
@@ -164,7 +169,8 @@ PROPS = {
                 "file; `ruler serve` on a loopback port; requests: every cached hash (with and without trailing slash), every recorded (rule, sources) pair, absent hashes, "
                 "and hostile paths (wrong length, percent-encoded characters and slashes, '..', empty segments, extra segments, other prefixes, non-ASCII, near-miss "
                 "mutations of real names, query strings); status and body compared with the model's respond on the raw segments; monitors: 200 bodies hash to the "
-                "requested name / are the recorded outputs, nothing else is ever served, server alive afterwards, POST not served. Distinct by request path.",
+                "requested name / are the recorded outputs, nothing else is ever served, server alive afterwards, POST not served. Distinct by request path."
+                + " Round 2: suite c19_live — the real serve() (warp over loopback) runs inside the harness process on the in-memory file system while builds and cleans of swap histories go on, the clock not advancing; after every invocation every history entry and cache entry on disk must be served, unknown and malformed names get 404 (8 quick / 60 thorough servers, about 100 requests each).",
         "trusted_base": COMMON_TB + ["warp/hyper/tokio (routing, raw segment passing, connection handling) are not modelled; checklib/realbin.py's warp_segments states the observed segmentation", "python http.client"],
         "assumptions": [
             "PARTIAL: theorems about the handler logic (coq/Model/Server.v); the HTTP stack and liveness are covered by the loopback correspondence only",
@@ -211,7 +217,8 @@ PROPS = {
                 "choice, build with a goal choice; 150 quick / 2000 thorough on the in-memory System compared op by op with the model, and 10 / 120 with the REAL binary and sh "
                 "commands (cat, printf, chmod +x) on the real file system, where files with permission bits, the cache listing and the status lines are compared with the model. "
                 "Monitors: after clean no in-scope target exists and each content is in the cache; after the build every target is back identical with its executable bit; no command "
-                "when the cleaned contents are pairwise different. All cases non-trivial.",
+                "when the cleaned contents are pairwise different. All cases non-trivial."
+                + " Round 2: one to three rounds of clean/build per scenario (a clean after a build that only RECOVERED the targets meets different bookkeeping than the first), per-round checks that no in-scope target exists after the clean and that its content is in the cache.",
         "trusted_base": COMMON_TB + ["rename(2) / permission semantics of the real file system as observed", "sh, cat, printf, chmod"],
         "assumptions": [
             "PARTIAL: proved: clean leaves no plan target and puts each cleaned file into the cache under its hash; restore moves the cache file (content and permission bits) into place; commands run only on a cache miss. The end-to-end 'up to date before clean => next build succeeds with no command' is checked on every scenario, in memory and on the real file system, not proved as one statement",
@@ -232,7 +239,8 @@ PROPS = {
         "level": "proof",
         "suites": ["hist", "mixed", "sched"],
         "columns": ["verdict", "cmds", "status"],
-        "rule": "histories over the full C01 alphabet generated while running (edit/revert source, edit rules incl. invalid files, build, goal build, clean, goal clean, tamper, delete target, delete cache entry, delete ruler directory or parts, chmod), 260 quick / 4000 thorough, graphs of 1..6 (9) rules with multi-target rules, transitive edges, commands in a mini-language (constant, copy, concatenation with tags from a small pool so equal contents are common, chmod), a quarter with failing rules and missing leaves; corpus cases first. After every op the implementation's verdict, executed script lines, status lines, workspace, cache listing, decoded history files and file-state table are compared with the model (only the columns this property reads). Distinct by hash of the history; non-trivial = contains a successful build." + " Plus every explored schedule of suite sched. Monitor: each banner is checked against the rename / command log of the same build (Built iff the rule's command ran, Recovered iff moved in from the cache, Up-to-date iff untouched), exactly one line per target of finished rules, none for blocked rules.",
+        "rule": "histories over the full C01 alphabet generated while running (edit/revert source, edit rules incl. invalid files, build, goal build, clean, goal clean, tamper, delete target, delete cache entry, delete ruler directory or parts, chmod), 260 quick / 4000 thorough, graphs of 1..6 (9) rules with multi-target rules, transitive edges, commands in a mini-language (constant, copy, concatenation with tags from a small pool so equal contents are common, chmod), a quarter with failing rules and missing leaves; corpus cases first. After every op the implementation's verdict, executed script lines, status lines, workspace, cache listing, decoded history files and file-state table are compared with the model (only the columns this property reads). Distinct by hash of the history; non-trivial = contains a successful build." + " Plus every explored schedule of suite sched. Monitor: each banner is checked against the rename / command log of the same build (Built iff the rule's command ran, Recovered iff moved in from the cache, Up-to-date iff untouched), exactly one line per target of finished rules, none for blocked rules."
+                + " Round 2: suite mixed (see C08).",
         "trusted_base": COMMON_TB + ["the recording Printer of the harness"],
         "assumptions": ["reading 7.5: Built iff the command ran, else Recovered iff moved in, else Up-to-date", "theorems about status_lines / handle_rule / build in coq/Model; tied to build.rs by the status column"],
     },
@@ -240,7 +248,8 @@ PROPS = {
         "level": "proof",
         "suites": ["hist", "crash"],
         "columns": ["verdict", "files"],
-        "rule": PROPS_HIST_RULE + " Monitor: after every successful build (whole or goal-restricted) every in-scope target is compared with an evaluator written independently of ruler (own dependency order, own interpreter of the command mini-language) that computes the from-scratch contents from the current source files.",
+        "rule": PROPS_HIST_RULE + " Monitor: after every successful build (whole or goal-restricted) every in-scope target is compared with an evaluator written independently of ruler (own dependency order, own interpreter of the command mini-language) that computes the from-scratch contents from the current source files."
+                + " Round 2: the crash suite is part of this check too: from every crash state of a killed build a second continuation re-applies the other version of the edited source and builds, with the C01 monitor on.",
         "trusted_base": COMMON_TB + ["hash collision freedom idealised (free symbolic hashes; generic theorems take injectivity hypotheses)", "directories not modelled"],
         "assumptions": [
             "commands deterministic in every build of the history (det_history: write only own targets, read only declared sources) — needed for the whole history, shown by a refutation; fine clock starting above 0",
@@ -256,7 +265,8 @@ PROPS = {
                 "quarter of the scenarios, all in thorough). EVERY mutation index is a crash point (directory creation, create, every torn write of state files and of command "
                 "outputs, rename, chmod): the snapshot is checked (cache content-addressed, no previously existing content lost outside a running command) and a fresh build "
                 "from it must not panic, must not be wedged, must succeed when a from-scratch build would, and must satisfy C01, C07, C08, C09, C20. The uninterrupted scenario "
-                "is a history case for the model. evaluations counts scenarios; coverage.suites.crash.extra.crash_points counts the crash points explored.",
+                "is a history case for the model. evaluations counts scenarios; coverage.suites.crash.extra.crash_points counts the crash points explored."
+                + " Round 2: per scenario the implementation's disk at every action boundary is compared state by state with the model's crash states (disk after every prefix of Model/Acts.v build_acts / clean_acts); scenarios whose prior state is 'edited, built, reverted' get a second continuation from every crash state (re-apply the edit, build).",
         "trusted_base": COMMON_TB + ["'killed' = all threads stop between two System calls of the in-memory file system; power-loss reordering below the file-system API is not modelled"],
         "assumptions": [
             "PARTIAL: proved: at every crash state (any prefix of ruler's and the commands' primitive actions, any schedule) the disk invariant holds, no state file under a real name is damaged, the next build is not wedged; C01 for the recovery build needs history soundness at crash states inside a build, which is proved at quiescent points only — the recovery build is monitored at every crash point",
@@ -270,7 +280,8 @@ PROPS = {
         "rule": "220 quick / 3000 thorough generated histories (alphabet of C01, deterministic commands), half under the fine clock and half under the coarse clock (one tick per "
                 "user action or ruler invocation), each run twice — as is, and with the file-state table erased before every build; verdict and workspace after every build "
                 "must agree between the two runs (monitor), and all runs are history cases for the model (which implements both clocks); corpus cases (the F4 history and a "
-                "contents-cycling history) run first, paired as well. Distinct by hash of the history; non-trivial = contains a successful build.",
+                "contents-cycling history) run first, paired as well. Distinct by hash of the history; non-trivial = contains a successful build."
+                + " Round 2: suite swap (see C07) with paired runs as well.",
         "trusted_base": COMMON_TB,
         "assumptions": [
             "PARTIAL: theorem for the fine clock (any sound table, erased included, gives literally the same build and clean); coarse clock decided by paired runs and model correspondence only",
